@@ -255,6 +255,136 @@ fn mixer_level_index() {
         "C18: mixed DAC level is finite and within 3 channels x full scale");
 }
 
+/// Two chips in the same symbolic state (everything one generator tick reads).
+fn same_state_pair() -> (AymPrecise, AymPrecise) {
+    // AY and YM differ in the DAC table only (the AY table repeats each level twice)
+    let is_ym: bool = kani::any();
+    let mut a = AymPrecise::new(is_ym, 1773400.0, 44100);
+    let mut b = AymPrecise::new(is_ym, 1773400.0, 44100);
+    // distinct concrete pan gains per channel (a chip built directly has all gains 0)
+    let pans: [(f64, f64); 3] = [(1.0, 0.0), (0.5, 0.25), (0.0, 0.75)];
+    let mut i = 0;
+    while i < 3 {
+        a.channels[i].pan_left = pans[i].0;
+        b.channels[i].pan_left = pans[i].0;
+        a.channels[i].pan_right = pans[i].1;
+        b.channels[i].pan_right = pans[i].1;
+        let t: usize = kani::any();
+        let toff: usize = kani::any();
+        let noff: usize = kani::any();
+        let vol: usize = kani::any();
+        kani::assume(t < 2 && toff < 2 && noff < 2 && vol < 16);
+        let en: bool = kani::any();
+        let tp: u16 = kani::any();
+        let tc: u16 = kani::any();
+        kani::assume(tc < 0xFFFF);
+        a.channels[i].tone = t;
+        b.channels[i].tone = t;
+        a.channels[i].tone_off_bit = toff;
+        b.channels[i].tone_off_bit = toff;
+        a.channels[i].noise_off_bit = noff;
+        b.channels[i].noise_off_bit = noff;
+        a.channels[i].volume = vol;
+        b.channels[i].volume = vol;
+        a.channels[i].envelope_enabled = en;
+        b.channels[i].envelope_enabled = en;
+        a.channels[i].tone_period = tp;
+        b.channels[i].tone_period = tp;
+        a.channels[i].tone_counter = tc;
+        b.channels[i].tone_counter = tc;
+        i += 1;
+    }
+    let n: usize = kani::any();
+    kani::assume(n < (1 << 17));
+    let nc: u16 = kani::any();
+    kani::assume(nc < 0xFFFF);
+    let np: u16 = kani::any();
+    kani::assume(np >= 1 && np < 32);
+    a.noise = n;
+    b.noise = n;
+    a.noise_counter = nc;
+    b.noise_counter = nc;
+    a.noise_period = np;
+    b.noise_period = np;
+    let e: usize = kani::any();
+    let shape: usize = kani::any();
+    let seg: usize = kani::any();
+    kani::assume(e < 32 && shape < 16 && seg < 2);
+    let ec: u16 = kani::any();
+    kani::assume(ec < 0xFFFF);
+    let ep: u16 = kani::any();
+    a.envelope = e;
+    b.envelope = e;
+    a.envelope_shape = shape;
+    b.envelope_shape = shape;
+    a.envelope_segment = seg;
+    b.envelope_segment = seg;
+    a.envelope_counter = ec;
+    b.envelope_counter = ec;
+    a.envelope_period = ep;
+    b.envelope_period = ep;
+    (a, b)
+}
+
+/// C18: mixer bits gate tone and noise per channel, the amplitude is the 4-bit volume (level
+/// 2*vol+1) or the envelope step when bit 4 is set, and each channel goes to the two sides with
+/// its pan gains: update_mixer's sums are exactly the DAC levels of
+/// (tone|tone_off) & (noise|noise_off) * level, combined from the component generators whose
+/// ticks are the subject of the other harnesses (run here on a twin chip in the same state).
+#[kani::proof]
+#[kani::unwind(4)]
+fn mixer_gating_and_levels() {
+    let (mut ay, mut twin) = same_state_pair();
+    let noise = twin.update_noise();
+    let env = twin.update_envelope();
+    let mut exp_l = 0.0f64;
+    let mut exp_r = 0.0f64;
+    let mut i = 0;
+    while i < 3 {
+        let tone = twin.update_tone(i);
+        let gate = if (tone == 1 || twin.channels[i].tone_off_bit == 1) && (noise == 1 || twin.channels[i].noise_off_bit == 1) { 1 } else { 0 };
+        let level = if twin.channels[i].envelope_enabled { env } else { twin.channels[i].volume * 2 + 1 };
+        let out = gate * level;
+        exp_l += twin.dac_table[out] * twin.channels[i].pan_left;
+        exp_r += twin.dac_table[out] * twin.channels[i].pan_right;
+        i += 1;
+    }
+    kani::assert(noise < 2 && env < 32, "C18: component outputs in range");
+    // whatever the previous tick left in the accumulators
+    ay.left = 5.0;
+    ay.right = 7.0;
+    ay.update_mixer();
+    kani::assert(ay.left == exp_l && ay.right == exp_r, "C18: mixer gating / volume-or-envelope level / panning of the three channels");
+    kani::assert(ay.noise == twin.noise && ay.envelope == twin.envelope && ay.envelope_segment == twin.envelope_segment
+        && ay.noise_counter == twin.noise_counter && ay.envelope_counter == twin.envelope_counter,
+        "C18: update_mixer ticks noise and envelope exactly once");
+    let mut j = 0;
+    while j < 3 {
+        kani::assert(ay.channels[j].tone == twin.channels[j].tone && ay.channels[j].tone_counter == twin.channels[j].tone_counter,
+            "C18: update_mixer ticks every tone generator exactly once");
+        j += 1;
+    }
+    kani::cover!(ay.left > 0.0);
+}
+
+/// C18: writing the envelope shape register restarts the envelope: counter and segment are reset
+/// and the level starts at the top for the decaying shapes (0-3, 8-11) and at 0 for the attacking
+/// ones (4-7, 12-15), whatever the generator was doing before.
+#[kani::proof]
+#[kani::unwind(4)]
+fn envelope_restart() {
+    let (mut ay, _) = same_state_pair();
+    let s: usize = kani::any();
+    ay.set_envelope_shape(s);
+    let shape = s & 0x0F;
+    kani::assert(ay.envelope_shape == shape, "C18: 4-bit envelope shape code");
+    kani::assert(ay.envelope_counter == 0 && ay.envelope_segment == 0, "C18: envelope restarts from its first segment");
+    let decays = shape < 4 || (shape >= 8 && shape < 12);
+    kani::assert(ay.envelope == if decays { 31 } else { 0 }, "C18: envelope start level of the shape");
+    kani::cover!(decays);
+    kani::cover!(!decays);
+}
+
 /// amplitude grows strictly with the 4-bit volume; envelope levels are non-decreasing in the 5-bit step
 #[kani::proof]
 #[kani::unwind(34)]
